@@ -82,6 +82,10 @@ CLAIMED = {
             "Per stream (7 quick / 8 thorough: 1-4 documents, blank lines leading/between/doubled/trailing, CRLF, no final newline, empty, white-space only): every single reader cut x 4 (8) configurations of GOMAXPROCS {1,3}, result-channel capacity {0,2}, recycle all/none; every pair (thorough: triple) of cuts in the base configuration; a reader fault after every byte count with and without data (thorough: x every single cut); mixed recycle masks; real 10 MiB constant. For each environment vector EVERY interleaving of consumer, forwarder, reader and chunk parsers is covered (unbounded DFS; interleavings reaching an already expanded state key are cut). Stream-model oracle: documents in order, exactly one io.EOF, close, nothing after an error; fault: prefix + reader's error + close; kept values unchanged at the end.",
             "State key = per-thread progress + hash of everything each thread received + channel contents by value identity + pool sizes; threads are deterministic functions of what they observe. Chunk constant scaled to 64 bytes via a run-time knob for the exhaustive part. Plain-memory races: see C20 race pass.",
             "DESIGN.md 4.9"),
+    "C20": ("stateless model checking of the source-instrumented package under a controlled scheduler (all interleavings between goroutine families up to a preemption bound, pool answers enumerated) + auxiliary free-running -race pass",
+            "2 (thorough also 3) goroutines each run 1-2 operations on their own objects (Parse small / concurrent-path, ParseND, Clone+edit, Serialize in 3 compressed modes + Deserialize, Deserialize of 2 blobs, traverse+marshal): all 55 unordered pairs of single operations plus 20 pairs of two-operation programs around the shared pools. Scheduling points at every operation on an object two goroutine families share (package-level sync.Pools incl. a point after every Put, the Once, shared channels), at blocking and at thread exit; every interleaving with <= 1 (2) preemptions, recycled-vs-new pool answers enumerated, pools start with one pooled object. Each goroutine must observe exactly what it observes alone; no deadlock/livelock/panic. The claim 'free of data races' is carried by a separate free-running pass of the same operations (plus ParseNDStream) built with -race: a race report or result mismatch there is a violation.",
+            "Scheduling inside one goroutine family (a Serialize and its three compressor goroutines) is deterministic, only the order of shared operations across families is explored. The -race pass samples. Cold-start race on the first NewSerializer in a process is not explored.",
+            "DESIGN.md 4.20"),
 }
 
 PENDING_REASON = "check not built yet in this round (planned, see DESIGN.md section 8); not claimed until its machinery exists"
